@@ -192,3 +192,38 @@ impl std::fmt::Debug for Lattice {
         writeln!(f, "]}}")
     }
 }
+
+#[cfg(feature = "verif")]
+impl Lattice {
+    pub fn verif_ends(&self) -> &[Vec<Node>] {
+        &self.ends
+    }
+
+    pub fn verif_ends_mut(&mut self) -> &mut Vec<Vec<Node>> {
+        &mut self.ends
+    }
+
+    pub const fn verif_eos(&self) -> Option<&Node> {
+        self.eos.as_ref()
+    }
+
+    pub fn verif_set_eos(&mut self, eos: Option<Node>) {
+        self.eos = eos;
+    }
+
+    pub fn verif_set_len_char(&mut self, len_char: usize) {
+        self.len_char = len_char;
+    }
+
+    pub fn verif_search_min_node<C>(
+        &self,
+        start_node: usize,
+        left_id: u16,
+        connector: &C,
+    ) -> (u16, i32)
+    where
+        C: ConnectorCost,
+    {
+        self.search_min_node(start_node, left_id, connector)
+    }
+}
